@@ -156,7 +156,7 @@ fn tcp_connection(r: &mut StdRng, server: &Arc<Server<Cat>>, addr: SocketAddr, p
     let mut buf = vec![0u8; 70000];
     let is_reset = |e: &std::io::Error| matches!(e.kind(), std::io::ErrorKind::ConnectionReset | std::io::ErrorKind::ConnectionAborted | std::io::ErrorKind::BrokenPipe);
     // phase 1: read until the expected octets are there (or the server closes / 3 s pass)
-    sock.set_read_timeout(Some(Duration::from_millis(3000))).unwrap();
+    sock.set_read_timeout(Some(Duration::from_millis(15000))).unwrap();   // only ever reached when the server misbehaves or the machine is frozen
     loop {
         if got.len() >= want && all_answered {
             break;
@@ -188,7 +188,7 @@ fn udp_exchange(r: &mut StdRng, server: &Arc<Server<Cat>>, addr: SocketAddr, pro
     us.send_to(&q, addr).unwrap();
     let mut datagrams: Vec<Value> = Vec::new();
     let mut buf = vec![0u8; 70000];
-    us.set_read_timeout(Some(Duration::from_millis(if exp.is_empty() { 120 } else { 2000 }))).unwrap();
+    us.set_read_timeout(Some(Duration::from_millis(if exp.is_empty() { 120 } else { 15000 }))).unwrap();
     loop {
         match us.recv_from(&mut buf) {
             Ok((nr, from)) => {
